@@ -1,6 +1,9 @@
 ---------------------------- MODULE Trace_RoundTrip ----------------------------
 (* C07, code -> spec.  One trace = one tree and a batch of outputs of the REAL serializer for   *)
-(* it: {tree, chk, outs: [{o (code points of the decoded output), alpha, minb}]}.               *)
+(* it: {tree, chk, outs: [{o (code points of the decoded output), alpha, minb, prior}]}.        *)
+(* prior = description of the unrelated document the long-lived real parser object was given    *)
+(* immediately before it re-parsed this output (<<>>: a fresh parser); the verdict must not      *)
+(* depend on it (RtParseAfter).                                                                   *)
 (* The SPECIFICATION's parser (Pipeline!ParseDoc, code-faithful KnownDefects) reads every       *)
 (* output back and the result must be the original tree (RtSame: attribute lists compared as    *)
 (* sorted when alphabetical_attributes was on, canonical boolean values identified when          *)
@@ -19,7 +22,7 @@ RECURSIVE BadOuts(_, _, _)
 BadOuts(tree, outs, i) ==
     IF i > Len(outs) THEN <<>>
     ELSE LET x == outs[i]
-             got == RtParse(x.o)
+             got == RtParseAfter(x.prior, x.o)
          IN (IF RtSame(got, tree, x.alpha, x.minb) THEN <<>>
              ELSE <<[i |-> i, path |-> RtDiffPath(RtNorm(tree, x.alpha, x.minb), RtNorm(got, x.alpha, x.minb))]>>)
             \o BadOuts(tree, outs, i + 1)
